@@ -325,6 +325,18 @@ def checker (model : Bool) : Checker where
         | ["race3", _] =>
           -- three goroutines, one call each on a fresh strategy of this configuration, repeated;
           -- `bad` is the first returned interval outside [initial, max] (or `-`)
+          -- budget: every trial is three calls on a fresh strategy, so exactly `Spec.grants maxRetries 3` are granted
+          -- under every interleaving (gmin/gmax = fewest/most grants seen in one trial; absent in old replays)
+          let want := Spec.grants cfg.maxRetries 3
+          let budgetBad : Option String :=
+            match fieldNat obs "gmin", fieldNat obs "gmax" with
+            | some gmin, some gmax =>
+              if fieldNat obs "trials" == some 0 then none
+              else if gmax > want then some s!"three concurrent Next calls on a fresh strategy granted {gmax} retries, budget {cfg.maxRetries} allows exactly {want}"
+              else if gmin < want then some s!"three concurrent Next calls on a fresh strategy granted only {gmin} retries, exactly {want} are due"
+              else none
+            | _, _ => none
+          if budgetBad.isSome then (st, budgetBad) else
           match field obs "bad" with
           | some "-" => (st, none)
           | some v =>
